@@ -1,1 +1,261 @@
-/-! C37 — property theorems (stub: nothing proved yet). -/
+import B6.Lemmas.Validate
+/-!
+# C37 — Every feature in a world is valid
+
+Model: `B6.Model.Validate` (ingest/validate.go; `BasicWorldBuilder.Finish` after
+fixes/C37-finish-validate-paths-before-areas.patch; `BasicMutableWorld.AddFeature`; `compact.Validator`).
+S2's verdicts on a closed loop (valid? counter-clockwise?) are an `Oracle`.
+
+* `build_all_valid_partial`  every feature of the world built by `Finish` is `valid` in that world — for
+                             every source with distinct IDs and every oracle, provided inverting a
+                             clockwise loop yields a valid counter-clockwise loop (`invertContract`; S2
+                             breaks it for degenerate loops: finding `degenerate_loop`)
+* `build_all_valid_no_invert` the same without any assumption on the oracle when clockwise paths are
+                             rejected (`FailClockwisePaths`)
+* `dangling_area_counterexample`, `finish_old_panics`  the single-pass `Finish` before the repair keeps an
+                             area whose path it deletes, and panics (fatally) on an area over a path whose
+                             first point is missing
+* `degenerate_loop_counterexample` the remaining class
+* `edits_preserve_valid_statement` (tied by the correspondence run only)
+-/
+namespace B6.Props.C37
+open B6.Model.Validate B6.Lemmas.Validate
+
+theorem validatePath_ok {O : Oracle} {w : World} {refs : List Id} (h : validatePath O w refs = .ok) :
+    2 ≤ refs.length ∧ ∃ slots, pathSlots w refs = some slots ∧
+      (closedRefs refs = true → (O.loopValid slots.dropLast = true ∧ O.ccw slots.dropLast = true)) := by
+  unfold validatePath at h
+  split at h
+  · cases h
+  · rename_i hlen
+    refine ⟨by omega, ?_⟩
+    split at h
+    · cases h
+    · rename_i slots hs
+      refine ⟨slots, hs, ?_⟩
+      intro hc
+      simp only [hc, ↓reduceIte] at h
+      split at h
+      · cases h
+      · split at h
+        · cases h
+        · rename_i h1 h2
+          exact ⟨by simpa using h1, by simpa using h2⟩
+
+theorem validatePath_len {O : Oracle} {w : World} {refs : List Id} (h : validatePath O w refs ≠ .invalid) :
+    2 ≤ refs.length := by
+  unfold validatePath at h
+  split at h
+  · exact absurd rfl h
+  · omega
+
+theorem validatePaths_true {w : World} : ∀ (ids : List Id), validatePaths w ids = some true →
+    ∀ pid ∈ ids, ∃ i refs, find w pid = some ⟨i, .path refs⟩ ∧ pathForArea w refs = some true := by
+  intro ids
+  induction ids with
+  | nil => intro _ pid hp; cases hp
+  | cons a ids ih =>
+    intro h pid hp
+    simp only [validatePaths] at h
+    split at h
+    · rename_i i refs hf
+      cases hpa : pathForArea w refs with
+      | none => simp [hpa] at h
+      | some b =>
+        cases b with
+        | false => simp [hpa] at h
+        | true =>
+          simp only [hpa] at h
+          rcases List.mem_cons.mp hp with rfl | hp
+          · exact ⟨i, refs, hf, hpa⟩
+          · exact ih h pid hp
+    · cases h
+    · cases h
+
+theorem pathForArea_true {w : World} {refs : List Id} (h : pathForArea w refs = some true) :
+    3 ≤ refs.length ∧ ∃ a b x, refs.head? = some a ∧ refs.getLast? = some b ∧ locOf w a = some x ∧ locOf w b = some x := by
+  unfold pathForArea at h
+  split at h
+  · cases h
+  · rename_i hlen
+    refine ⟨by omega, ?_⟩
+    split at h
+    · rename_i a b ha hb
+      split at h
+      · rename_i x y hx hy
+        injection h with h
+        have : x = y := by simpa using h
+        subst this
+        exact ⟨a, b, x, ha, hb, hx, hy⟩
+      · cases h
+    · cases h
+
+/-- the core: a source with distinct IDs, built in two stages -/
+theorem finish_valid (O : Oracle) (invert : Bool) (src w : World) (hu : Uniq src)
+    (hc : invert = true → invertContract O src src = true) (h : finish O invert src = some w) :
+    ∀ g ∈ w, valid O w g = true := by
+  unfold finish stage at h
+  cases h1s : stageOn O invert (fun f => !isArea f) src src with
+  | none => simp [h1s] at h
+  | some w1 =>
+    simp only [h1s] at h
+    have h1 := stageOn_img _ _ _ _ _ _ h1s
+    have h2 := stageOn_img _ _ _ _ _ _ h
+    have hu1 := img_uniq h1 hu
+    have hu2 := img_uniq h2 hu1
+    have loc1 := img_locOf h1 hu
+    have loc2 := img_locOf h2 hu1
+    have locw : ∀ id, locOf w id = locOf src id := fun id => by rw [loc2, loc1]
+    intro g hg
+    obtain ⟨f1, hf1, hk1, hcase⟩ := img_mem h2 g hg
+    rcases hcase with ⟨hsel, rfl⟩ | ⟨hsel, hv⟩
+    · -- not an area: it survived the first stage
+      obtain ⟨f0, hf0, hk0, hcase0⟩ := img_mem h1 g hf1
+      rcases hcase0 with ⟨hsel0, rfl⟩ | ⟨_, hv0⟩
+      · simp only [Bool.not_eq_eq_eq_not, Bool.not_false] at hsel0
+        rw [hsel] at hsel0; cases hsel0
+      · cases hgeo : f0.geo with
+        | point k =>
+          have := hk0.2; simp only [hgeo] at this; subst this
+          simp [valid, hgeo]
+        | other r =>
+          have := hk0.2; simp only [hgeo] at this; subst this
+          simp [valid, hgeo]
+        | area p =>
+          have := hk0.2; simp only [hgeo] at this; subst this
+          simp [isArea, hgeo] at hsel
+        | path r0 =>
+          unfold validateFeature at hv0
+          simp only [hgeo] at hv0
+          cases hvp : validatePath O src r0 with
+          | invalid => simp [hvp] at hv0
+          | ok =>
+            simp only [hvp] at hv0
+            injection hv0 with hv0; injection hv0 with _ hv0; subst hv0
+            obtain ⟨hlen, slots, hs, hcl⟩ := validatePath_ok hvp
+            simp only [valid, hgeo, pathSlots_congr locw, hs]
+            by_cases hclosed : closedRefs r0 = true
+            · obtain ⟨ha, hb⟩ := hcl hclosed
+              simp [hlen, ha, hb]
+            · simp [hlen, hclosed]
+          | clockwise =>
+            simp only [hvp] at hv0
+            cases hinv : invert with
+            | false => simp [hinv] at hv0
+            | true =>
+              simp only [hinv, ↓reduceIte] at hv0
+              injection hv0 with hv0; injection hv0 with _ hv0; subst hv0
+              have hcon := hc hinv
+              simp only [invertContract, List.all_eq_true] at hcon
+              have := hcon f0 hf0
+              simp only [hgeo, hvp] at this
+              have hlen := validatePath_len (O := O) (w := src) (refs := r0) (by rw [hvp]; intro e; cases e)
+              cases hs : pathSlots src r0.reverse with
+              | none => simp [hs] at this
+              | some slots =>
+                simp only [hs, Bool.and_eq_true] at this
+                simp only [valid, pathSlots_congr locw, hs, List.length_reverse]
+                simp [hlen, this.1, this.2]
+    · -- an area validated against the survivors of the first stage
+      have hsel' := hsel
+      cases hgeo : f1.geo with
+      | point k => simp [isArea, hgeo] at hsel
+      | path r => simp [isArea, hgeo] at hsel
+      | other r => simp [isArea, hgeo] at hsel
+      | area polys =>
+        have := hk1.2; simp only [hgeo] at this; subst this
+        unfold validateFeature at hv
+        simp only [hgeo] at hv
+        cases hva : validateArea w1 polys with
+        | none => simp [hva] at hv
+        | some b =>
+          simp only [hva] at hv
+          injection hv with hv; injection hv with hb _; subst hb
+          simp only [valid, hgeo, List.all_eq_true]
+          intro pid hpid
+          obtain ⟨i, refs, hfind, hpa⟩ := validatePaths_true _ hva pid hpid
+          obtain ⟨hlen, a, b, x, ha, hb, hxa, hxb⟩ := pathForArea_true hpa
+          obtain ⟨hmem, hid⟩ := find_some_mem hfind
+          have hkeep : (⟨i, .path refs⟩ : Feat) ∈ w := img_keeps h2 _ hmem (Or.inl (by simp [isArea]))
+          have hfw := find_of_mem hu2 hkeep
+          simp only at hid
+          rw [hid] at hfw
+          simp only [areaPathOk, hfw, ha, hb, loc2, hxa, hxb]
+          simp [hlen]
+
+/-- **build_all_valid_partial.** Every feature of the world `Finish` builds is valid in that world. -/
+theorem build_all_valid_partial (O : Oracle) (invert : Bool) (src w : World) (hu : Uniq src)
+    (hc : invert = true → invertContract O src src = true) (h : finish O invert src = some w) :
+    allValid O w = true := by
+  simp only [allValid, List.all_eq_true]
+  exact finish_valid O invert src w hu hc h
+
+/-- with `FailClockwisePaths` no assumption about S2 is needed at all -/
+theorem build_all_valid_no_invert (O : Oracle) (src w : World) (hu : Uniq src)
+    (h : finish O false src = some w) : allValid O w = true :=
+  build_all_valid_partial O false src w hu (by intro e; cases e) h
+
+/-- the full statement (no side condition on the oracle) -/
+def build_all_valid_statement : Prop :=
+  ∀ (O : Oracle) (invert : Bool) (src w : World), Uniq src → finish O invert src = some w → allValid O w = true
+
+/-! ### witnesses -/
+
+/-- every loop is valid and counter-clockwise -/
+def niceOracle : Oracle := ⟨fun _ => true, fun _ => true⟩
+
+def pt (v k : Nat) : Feat := ⟨(0, v), .point (some k)⟩
+
+/-- points 1,2,3; path 10 = [1,2,3,4,1] (point 4 missing); area 20 over path 10 -/
+def danglingSrc : World :=
+  [pt 1 1, pt 2 2, pt 3 3, ⟨(1, 10), .path [(0, 1), (0, 2), (0, 3), (0, 4), (0, 1)]⟩, ⟨(2, 20), .area [[(1, 10)]]⟩]
+
+/-- **dangling_area_counterexample.** Before the repair the single pass accepts area 20 while path 10
+still exists, then deletes path 10: the built world contains an invalid area. After the repair the
+area is dropped and the world is valid. -/
+theorem dangling_area_counterexample :
+    finishOld niceOracle true danglingSrc = some [pt 1 1, pt 2 2, pt 3 3, ⟨(2, 20), .area [[(1, 10)]]⟩] ∧
+    (∃ w, finishOld niceOracle true danglingSrc = some w ∧ allValid niceOracle w = false) ∧
+    finish niceOracle true danglingSrc = some [pt 1 1, pt 2 2, pt 3 3] := by
+  refine ⟨by decide, ⟨[pt 1 1, pt 2 2, pt 3 3, ⟨(2, 20), .area [[(1, 10)]]⟩], by decide, by decide⟩, by decide⟩
+
+/-- … and when the FIRST point of the path is missing, validating the area panics (fatal in a
+goroutine of `Finish`); after the repair the path is gone before the area is looked at. -/
+theorem finish_old_panics :
+    finishOld niceOracle true [pt 2 2, pt 3 3, ⟨(1, 10), .path [(0, 1), (0, 2), (0, 3), (0, 1)]⟩, ⟨(2, 20), .area [[(1, 10)]]⟩] = none ∧
+    finish niceOracle true [pt 2 2, pt 3 3, ⟨(1, 10), .path [(0, 1), (0, 2), (0, 3), (0, 1)]⟩, ⟨(2, 20), .area [[(1, 10)]]⟩] = some [pt 2 2, pt 3 3] := by
+  decide
+
+/-- non-vacuity of `build_all_valid_partial`: a source with a clockwise loop that inversion repairs -/
+def cwOracle : Oracle := ⟨fun _ => true, fun l => decide (l = [1, 2, 3] ∨ l = [3, 1, 2])⟩
+def cwSrc : World := [pt 1 1, pt 2 2, pt 3 3, ⟨(1, 10), .path [(0, 3), (0, 2), (0, 1), (0, 3)]⟩, ⟨(2, 20), .area [[(1, 10)]]⟩]
+example : Uniq cwSrc ∧ invertContract cwOracle cwSrc cwSrc = true ∧
+    finish cwOracle true cwSrc = some [pt 1 1, pt 2 2, pt 3 3, ⟨(1, 10), .path [(0, 3), (0, 1), (0, 2), (0, 3)]⟩, ⟨(2, 20), .area [[(1, 10)]]⟩] := by
+  refine ⟨by unfold Uniq; decide, by decide, by decide⟩
+
+/-- S2 on a loop through two coinciding points: valid, and "clockwise" in both directions -/
+def degenerateOracle : Oracle := ⟨fun _ => true, fun _ => false⟩
+def degenerateSrc : World :=
+  [pt 1 25, pt 3 6, pt 5 5, pt 6 6, ⟨(1, 12), .path [(0, 1), (0, 3), (0, 5), (0, 6), (0, 1)]⟩]
+
+/-- **degenerate_loop_counterexample** (finding `degenerate_loop`): the path is inverted and kept although
+it is still clockwise by the test that condemned it; the unconditional statement is false. -/
+theorem degenerate_loop_counterexample :
+    invertContract degenerateOracle degenerateSrc degenerateSrc = false ∧
+    ∃ w, finish degenerateOracle true degenerateSrc = some w ∧ allValid degenerateOracle w = false :=
+  ⟨by decide, [pt 1 25, pt 3 6, pt 5 5, pt 6 6, ⟨(1, 12), .path [(0, 1), (0, 6), (0, 5), (0, 3), (0, 1)]⟩], by decide, by decide⟩
+
+theorem build_all_valid_statement_false : ¬ build_all_valid_statement := by
+  intro h
+  obtain ⟨_, w, h1, h2⟩ := degenerate_loop_counterexample
+  have := h degenerateOracle true degenerateSrc w (by unfold Uniq; decide) h1
+  rw [h2] at this; cases this
+
+/-- the statement about edits (`BasicMutableWorld.AddFeature`): an accepted edit keeps every feature
+valid. Not proved here; tied by the correspondence run (every world after every edit is re-validated
+by the driver's `allValid`). -/
+def edits_preserve_valid_statement : Prop :=
+  ∀ (O : Oracle) (w w' : World) (f : Feat), Uniq w → allValid O w = true →
+    (match addFeature O w f with | .ok x => x = w' | _ => False) → allValid O w' = true
+
+end B6.Props.C37
